@@ -1,5 +1,214 @@
+(* C22  Connection event timing and supervision follow the connection parameters: specification and monitor.
+
+   Specification level notions
+     widening a t   = what the receive window has to be widened by at each end, t microseconds after the last anchor, for
+                      a combined sleep clock accuracy of a ppm:  a * t / 10^6  (a real number; [widen_floor] is its floor)
+     required a t   = widen_floor a t - 1: the monitor's (and the _partial theorem's) demand; the fixed point formula of
+                      delta_time::ppm is below the real value by less than 1 us + 2.6e-9 relative (theorem
+                      ppm_exact_refuted / ppm_close in LLProofs.v)
+     connect_valid  = the Core specification's ranges for the LLData of a CONNECT_IND (Vol 6 Part B 2.3.3.1, 4.5.1, 4.5.2)
+
+   The monitor [mstep22] judges an observed trace. Clauses (tags):
+     1 anchor              a connection event is not scheduled at last anchor + k intervals, 1 <= k <= latency + 1
+                           (+ 1 per missed event), or with another interval than the connection's
+     2 window              the receive window does not cover anchor +- required widening (+ transmit window)
+     3 supervision_early   closed for supervision timeout (0x08 / attempt timeout) before the timeout elapsed
+     4 supervision_late    still scheduling although nothing valid was received for the supervision timeout
+                           (6 intervals while connecting)
+     5 connect_invalid     a connection was established from a connect request with invalid parameters
+     6 connect_valid_refused   a valid connect request addressed to this device was ignored
+     7 fault               assert / sanitizer abort
+   Out of scope (stops judging until the next connection): disconnect(), try_event_cancelation() (C23), the events
+   between the instant of a connection update and the first packet after it. *)
 From BT Require Import Base.ListX LL.LLModel LL.LLSpec.
+From BT Require gen.GenLL.
+Import ListNotations.
 Local Open Scope N_scope.
-Definition mon22 := unit.
-Definition minit22 (c : cfg) : mon22 := tt.
-Definition mstep22 (c : cfg) (m : mon22) (o : lop) (r : lout) : verdict * mon22 := (Ok, m).
+
+Definition widen_floor (a t : N) : N := a * t / 1000000.
+Definition required (a t : N) : N := widen_floor a t - 1.
+
+(* sleep clock accuracy field of the CONNECT_IND -> worst case ppm (Core Vol 6 Part B 2.3.3.1) *)
+Definition sca_ppm (field : N) : N := nth (N.to_nat field) [500; 250; 150; 100; 75; 50; 30; 20] 0.
+
+Fixpoint popcount (fuel : nat) (x : N) : N :=
+  match fuel with O => 0 | S f => (x mod 2) + popcount f (x / 2) end.
+Definition used_channels (chmap : list N) : N :=
+  popcount 8 (byte chmap 0) + popcount 8 (byte chmap 1) + popcount 8 (byte chmap 2) + popcount 8 (byte chmap 3)
+  + popcount 5 (byte chmap 4).
+
+(* LLData of a CONNECT_IND; body = InitA AdvA AA CRCInit WinSize WinOffset Interval Latency Timeout ChM Hop/SCA *)
+(* NOTE: the Core's upper bound of the window size is min( 10 ms, interval - 1.25 ms ); the repository's own unit tests
+   send connection updates with window size = interval, and the repair keeps accepting that: [<= interval] here. *)
+Definition connect_timing_valid (body : list N) : bool :=
+  let winsize := byte body 19 in let winoffset := rd16 body 20 in let interval := rd16 body 22 in
+  let latency := rd16 body 24 in let tmo := rd16 body 26 in
+  (6 <=? interval) && (interval <=? 3200)
+  && (latency <=? 499)
+  && (10 <=? tmo) && (tmo <=? 3200)
+  && ((1 + latency) * interval * 2 * 1250 <? tmo * 10000)           (* timeout > ( 1 + latency ) * interval * 2 *)
+  && (1 <=? winsize) && (winsize <=? 8) && (winsize <=? interval)
+  && (winoffset <=? interval).
+
+Definition connect_hop_valid (body : list N) : bool :=
+  let hop := N.land (byte body 33) 31 in (5 <=? hop) && (hop <=? 16).
+
+(* LLData of a CONNECT_IND; body = InitA AdvA AA CRCInit WinSize WinOffset Interval Latency Timeout ChM Hop/SCA *)
+Definition connect_valid (body : list N) : bool :=
+  connect_timing_valid body && connect_hop_valid body && (2 <=? used_channels (slice body 28 5)).
+
+Definition addressed_to_us (c : cfg) (hdr0 : N) (body : list N) : bool :=
+  (N.of_nat (length body) =? 34) && (N.land hdr0 15 =? 5) && bytes_eqb (slice body 6 6) (c_own c)
+  && negb (N.land hdr0 128 =? 0).
+
+Inductive phase22 := PIdle | PConnecting | PConnected | PBlind.   (* PBlind: between an update's instant and the next packet *)
+
+Record mon22 := mk22 {
+  p_phase : phase22;
+  p_stop : bool;
+  p_interval : N;       (* us *)
+  p_latency : N;
+  p_timeout : N;        (* us *)
+  p_a : N;              (* combined sleep clock accuracy, ppm *)
+  p_off : N; p_size : N;   (* transmit window (us) of the event that is scheduled; size 0 = none *)
+  p_t : N;              (* time from the last anchor to the scheduled event *)
+  p_missed : N;         (* events missed since the last anchor *)
+  p_upd : list (N * N * N * N * N)   (* delivered connection updates: winsize, winoffset, interval, latency, timeout (units) *)
+}.
+
+Definition minit22 (c : cfg) : mon22 := mk22 PIdle false 0 0 0 0 0 0 0 0 [].
+Definition idle22 : mon22 := mk22 PIdle false 0 0 0 0 0 0 0 0 [].
+
+Definition find_ce (it : list item) : option (N * N * N * N) :=
+  fold_left (fun a i => match i with ICe ch s e iv => Some (ch, s, e, iv) | _ => a end) it None.
+Definition has_adv22 (it : list item) : bool := existsb (fun i => match i with IAdv _ => true | _ => false end) it.
+Definition closed_with (it : list item) (r : N) : bool :=
+  existsb (fun i => match i with ICb (EvClosed x) => x =? r | ICb EvAttemptTimeout => r =? 8 | _ => false end) it.
+Definition changed_details (it : list item) : option details :=
+  fold_left (fun a i => match i with ICb (EvChanged d) => Some d | _ => a end) it None.
+
+(* the window [s, e] covers the nominal interval [x0, x1] widened by the required amount *)
+Definition covers (a s e x0 x1 : N) : bool := (s + required a x0 <=? x0) && (x1 + required a x1 <=? e).
+
+Fixpoint search_k (a s e off size iv : N) (k : nat) : bool :=
+  match k with
+  | O => false
+  | S k' => covers a s e (N.of_nat k * iv + off) (N.of_nat k * iv + off + size) || search_k a s e off size iv k'
+  end.
+
+Definition updates_of (pdus : list pdu) : list (N * N * N * N * N) :=
+  flat_map (fun p => match p with
+                     | (llid, b) => if (N.land llid 3 =? 3) && (N.of_nat (length b) =? 12) && (byte b 0 =? 0)
+                                    then [(byte b 1, rd16 b 2, rd16 b 4, rd16 b 6, rd16 b 8)] else []
+                     end) pdus.
+
+(* the delivered update whose parameters are the ones reported by connection_changed *)
+Fixpoint applied_update (l : list (N * N * N * N * N)) (d : details) : option (N * N * N * N * N) :=
+  match l with
+  | [] => None
+  | (wsz, woff, ivl, lat, tmo) :: r =>
+      if (ivl =? d_interval d) && (lat =? d_latency d) && (tmo =? d_timeout d) then Some (wsz, woff, ivl, lat, tmo)
+      else applied_update r d
+  end.
+
+Definition mstep22 (c : cfg) (m : mon22) (o : lop) (r : lout) : verdict * mon22 :=
+  match r with
+  | OCrash => (Bad 7, m)
+  | OPre | OBadOp => (Ok, m)
+  | OItems it =>
+      match o with
+      | Adv hdr0 body =>
+          match find_ce it with
+          | Some (_, s, e, iv) =>
+              if negb (connect_valid body) then (Bad 5, m)
+              else
+                let a := sca_ppm (N.land (N.shiftr (byte body 33) 5) 7) + c_sca c in
+                let off := (rd16 body 20 + 1) * 1250 in
+                let size := byte body 19 * 1250 in
+                let interval := rd16 body 22 * 1250 in
+                if negb (iv =? interval) then (Bad 1, m)
+                else if negb (covers a s e off (off + size)) then (Bad 2, m)
+                else (Ok, mk22 PConnecting false interval (rd16 body 24) (rd16 body 26 * 10000) a off size 0 0 [])
+          | None =>
+              match p_phase m with
+              | PIdle => if addressed_to_us c hdr0 body && connect_valid body && negb (has_adv22 it) then (Bad 6, m) else (Ok, m)
+              | _ => (Ok, m)
+              end
+          end
+      | Run | AdvTimeout | St | Key _ | TxAvail _ | Cpu _ _ _ _ | Cpr _ _ _ _ | PhyReq _ _ | VerReq | CprReply _ _ _ _ | CprNeg _ => (Ok, m)
+      | Disconnect _ | Cancel _ _ =>
+          match p_phase m with PIdle => (Ok, m) | _ => (Ok, mk22 (p_phase m) true (p_interval m) (p_latency m) (p_timeout m) (p_a m) (p_off m) (p_size m) (p_t m) (p_missed m) []) end
+      | Ev _ pdus =>
+          match p_phase m with
+          | PIdle => (Ok, m)
+          | _ =>
+              if has_adv22 it then (Ok, idle22)
+              else if p_stop m then (Ok, m)
+              else
+                match find_ce it with
+                | None => (Bad 8, m)
+                | Some (_, s, e, iv) =>
+                    let upd := p_upd m ++ updates_of pdus in
+                    (* without connection callbacks the application of an update is not observable: out of scope from its delivery *)
+                    if negb (c_cb c) && match upd with _ :: _ => true | [] => false end
+                    then (Ok, mk22 (p_phase m) true (p_interval m) (p_latency m) (p_timeout m) (p_a m) (p_off m) (p_size m) (p_t m) (p_missed m) [])
+                    else
+                    match changed_details it, match changed_details it with Some d => applied_update upd d | None => None end with
+                    | Some d, Some (wsz, woff, ivl, lat, tmo) =>
+                        (* the update's instant: old interval up to here, then the new transmit window *)
+                        if negb (iv =? ivl * 1250) then (Bad 1, m)
+                        else if search_k (p_a m) s e (woff * 1250) (wsz * 1250) (p_interval m) (N.to_nat (p_latency m + 1 + p_missed m))
+                        then (Ok, mk22 PBlind false (ivl * 1250) lat (tmo * 10000) (p_a m) (woff * 1250) (wsz * 1250) 0 0 [])
+                        else (Bad 2, m)
+                    | Some d, None =>
+                        (* a change that is not a connection update (encryption): timing as usual *)
+                        (Ok, mk22 PBlind false (p_interval m) (p_latency m) (p_timeout m) (p_a m) 0 0 0 0 upd)
+                    | None, _ =>
+                        if negb (iv =? p_interval m) then (Bad 1, m)
+                        else if negb ((s + e) mod 2 =? 0) then (Bad 1, m)
+                        else
+                          let t := (s + e) / 2 in
+                          if negb ((t mod p_interval m =? 0) || (p_interval m =? 0)) then (Bad 1, m)
+                          else if negb ((p_interval m <=? t) && (t <=? (p_latency m + 1) * p_interval m)) then (Bad 1, m)
+                          else if negb (covers (p_a m) s e t t) then (Bad 2, m)
+                          else (Ok, mk22 PConnected false (p_interval m) (p_latency m) (p_timeout m) (p_a m) 0 0 t 0 upd)
+                    end
+                end
+          end
+      | Timeout =>
+          match p_phase m with
+          | PIdle => (Ok, m)
+          | PBlind => (Ok, if has_adv22 it then idle22 else m)
+          | ph =>
+              if p_stop m then (Ok, if has_adv22 it then idle22 else m)
+              else
+                let connecting := match ph with PConnecting => true | _ => false end in
+                let lost := (p_timeout m <=? p_t m) || (connecting && (5 <=? p_missed m)) in
+                if has_adv22 it then
+                  if closed_with it 8 && negb lost then (Bad 3, m) else (Ok, idle22)
+                else if match changed_details it with Some _ => true | None => false end then
+                  (* the instant of an update fell on a missed event *)
+                  (Ok, mk22 PBlind false (p_interval m) (p_latency m) (p_timeout m) (p_a m) 0 0 0 0 [])
+                else if lost then (Bad 4, m)
+                else
+                  match find_ce it with
+                  | None => (Bad 8, m)
+                  | Some (_, s, e, iv) =>
+                      let t := p_t m + p_interval m in
+                      if negb (iv =? p_interval m) then (Bad 1, m)
+                      else if negb (covers (p_a m) s e (t + p_off m) (t + p_off m + p_size m)) then (Bad 2, m)
+                      else if connecting then (Ok, mk22 ph false (p_interval m) (p_latency m) (p_timeout m) (p_a m) (p_off m) (p_size m) t (p_missed m + 1) (p_upd m))
+                      else if negb ((s + e) / 2 =? t) then (Bad 1, m)
+                      else (Ok, mk22 ph false (p_interval m) (p_latency m) (p_timeout m) (p_a m) (p_off m) (p_size m) t (p_missed m + 1) (p_upd m))
+                  end
+          end
+      end
+  end.
+
+Fixpoint mrun22 (c : cfg) (m : mon22) (tr : list (lop * lout)) : verdict :=
+  match tr with
+  | [] => Ok
+  | (o, r) :: t => match mstep22 c m o r with (Ok, m') => mrun22 c m' t | (Bad k, _) => Bad k end
+  end.
+
+Definition accepts22 (c : cfg) (tr : list (lop * lout)) : Prop := mrun22 c (minit22 c) tr = Ok.
